@@ -83,7 +83,7 @@ def gen_scenario(seed, index):
     mutated = False
     for _ in range(n):
         k = weighted(rng, [("repeat", 60), ("fail", 12), ("fault", 12), ("resolve", 6),
-                           ("display", 3), ("mutate", 3 if not mutated else 0.5)])
+                           ("display", 3), ("derive", 4), ("mutate", 3 if not mutated else 0.5)])
         if k in ("repeat", "fail"):
             ops.append({"op": k, "i": rng.randrange(len(corpus))})
         elif k == "fault":
@@ -94,6 +94,11 @@ def gen_scenario(seed, index):
                         else rng.choice(["runtime", "type", "interrupt"])})
         elif k in ("resolve", "display"):
             ops.append({"op": k, "i": rng.randrange(len(corpus))})
+        elif k == "derive":
+            # deriving a child (copy / variant / mixin combination) does not change f's own methods
+            ops.append({"op": "derive", "how": rng.choice(["copy", "variant", "mixin"]),
+                        "linkback": rng.random() < 0.6, "use": rng.random() < 0.5,
+                        "i": rng.randrange(len(corpus))})
         else:
             mutated = True
             if rng.random() < 0.6:
@@ -112,6 +117,8 @@ def type_combo(c):
 
 
 def execute(scen):
+    if scen.get("threaded"):
+        return execute_threads(scen)
     begin_run()
     spec = scen["spec"]
     codes, missing = monitored_codes()
@@ -202,6 +209,24 @@ def execute(scen):
                 stats["disturb"]["display_resolution"] = stats["disturb"].get("display_resolution", 0) + 1
             except Exception:  # noqa: BLE001
                 pass
+        elif k == "derive":
+            from ovld import Ovld
+
+            try:
+                if op["how"] == "copy":
+                    child = h.ov.copy(linkback=op["linkback"])
+                elif op["how"] == "variant":
+                    child = h.ov.variant(h.w.method("mx"), linkback=op["linkback"])
+                else:
+                    child = Ovld(mixins=[h.ov], linkback=op["linkback"])
+                nm = f"child{j}"
+                child.rename(nm, nm)
+                h.w.funcs[nm] = child
+                if op["use"]:
+                    h.w.call(nm, corpus[op["i"]])
+                stats["disturb"]["derive:" + op["how"]] = stats["disturb"].get("derive:" + op["how"], 0) + 1
+            except Exception as e:  # noqa: BLE001
+                trace.append(["derive-error", type(e).__name__])
         elif k in ("register", "unregister"):
             r = h.apply({"op": k, "mid": op["mid"]})
             trace.append([k, r[0]])
@@ -213,7 +238,97 @@ def execute(scen):
             "warmed": len(warmed), "combos": sorted({type_combo(corpus[i]) for i in warmed})}
 
 
+# --------------------------------------------------------------------------
+# threaded variant: a thread that repeats a call it has itself completed successfully must not
+# find the combination un-resolved again, whatever the other threads are doing meanwhile
+
+
+def execute_threads(scen):
+    from ..trace import Deadlock, Scheduler, SimRLock, StepCap
+    from . import c19
+
+    strategy, script = c19.make_strategy(scen)
+    begin_run()
+    SimRLock.reset_all()
+    codes, missing = monitored_codes()
+    h = Harness(scen["spec"], scen["regs"])
+    for c in scen["prewarm"]:
+        h.w.call("f", c)
+    sim = Sim(trace_world=True, step_cap=600_000, monitor_codes=codes)
+    sim.monitor_tagged = True
+    n = len(scen["threads"])
+    sched = Scheduler(sim, n, strategy=strategy, script=script)
+    results = [[None] * len(ops) for ops in scen["threads"]]
+
+    def body(tid):
+        for i, c in enumerate(scen["threads"][tid]):
+            sim.monitor_tag[tid] = i
+            results[tid][i] = h.w.call("f", c)
+
+    violation = None
+    try:
+        sched.run([body] * n, first=scen.get("first", 0))
+    except StepCap:
+        pass
+    repeats = 0
+    for tid, ops in enumerate(scen["threads"]):
+        for i, c in enumerate(ops):
+            prior = [j for j in range(i) if ops[j] == c and results[tid][j] and results[tid][j][0] == "ok"]
+            if not prior or not results[tid][i]:
+                continue
+            repeats += 1
+            hits = sorted({lab for (t, tag, lab) in sim.monitor_hits if t == tid and tag == i})
+            if hits and violation is None:
+                violation = {"clause": "a thread repeating a call it had already completed found the "
+                                       "argument-type combination unresolved again (concurrent callers)",
+                             "thread": tid, "op": i, "call": c, "resolution_functions_called": hits,
+                             "switches": sched.switches[:40],
+                             "symptom": "recomputed-under-threads:" + ",".join(hits[:2])}
+    digest = sim.digest ^ stable_hash([results, sched.switches])
+    return {"violation": violation, "digest": digest, "switches": sched.switches,
+            "repeats": repeats, "steps": sim.step}
+
+
+def threads_scenario(seed, index):
+    from . import c19
+
+    scen = c19.seeded_scenario(seed, index)
+    s, rng = run_rng(ID, index, seed=seed, salt="threads")
+    # make sure some thread repeats a call
+    for ops in scen["threads"]:
+        if rng.random() < 0.7:
+            ops.append(dict(ops[rng.randrange(len(ops))]))
+    scen["threaded"] = True
+    return scen
+
+
 def run_job(job):
+    if job.get("kind") == "threads":
+        from . import c19
+
+        stats = {"evaluations": 0, "nontrivial": [], "threaded_runs": 0, "threaded_repeats": 0}
+        violations = []
+        nviol = 0
+        dig = 0
+        for index in range(job["index"], job["index"] + job["count"]):
+            scen = threads_scenario(job["seed"], index)
+            r = execute_threads(scen)
+            stats["evaluations"] += 1
+            stats["threaded_runs"] += 1
+            stats["threaded_repeats"] += r["repeats"]
+            if r["repeats"] and r["switches"]:
+                stats["nontrivial"].append(stable_hash([scen["label"], r["switches"]]))
+            dig = (dig * 1000003 + r["digest"]) & ((1 << 61) - 1)
+            if r["violation"]:
+                nviol += 1
+                if len(violations) < 4:
+                    violations.append((c19.scripted(scen, r["switches"]), r["violation"]))
+        return {"stats": stats, "violations": violations, "nviolations": nviol, "digest": dig,
+                "samples": []}
+    return run_job_histories(job)
+
+
+def run_job_histories(job):
     stats = {"evaluations": 0, "nontrivial": [], "repeats_checked": 0, "disturb": {},
              "faults_fired": 0, "ops": 0, "combos": [], "missing_monitor_points": []}
     violations = []
@@ -248,30 +363,48 @@ def run_job(job):
 
 def jobs(tier, seed):
     if tier == "quick":
-        for i in range(0, 4000, 50):
-            yield {"seed": seed, "index": i, "count": 50}
+        for i in range(0, 8000, 100):
+            yield {"seed": seed, "index": i, "count": 100}
+        for i in range(0, 1600, 25):
+            yield {"kind": "threads", "seed": seed, "index": i, "count": 25}
     else:
-        i = 0
+        i = j = 0
         while True:
-            yield {"seed": seed, "index": i, "count": 50}
-            i += 50
+            for _ in range(3):
+                yield {"seed": seed, "index": i, "count": 100}
+                i += 100
+            yield {"kind": "threads", "seed": seed, "index": j, "count": 25}
+            j += 25
 
 
 def vclass(scen, v):
     return [v["clause"][:50], (v.get("symptom") or "")[:30]]
 
 
+def _c19():
+    from . import c19
+
+    return c19
+
+
 def signature(scen, v):
+    if scen.get("threaded"):
+        return {"clause": v["clause"], "symptom": v.get("symptom"), "threads": len(scen["threads"])}
     kinds = [o["op"] for o in scen["ops"]]
     return {"clause": v["clause"], "symptom": v.get("symptom"),
             "disturbances": ",".join(sorted(set(k for k in kinds if k not in ("repeat",))))}
 
 
 def size(scen):
+    if scen.get("threaded"):
+        return _c19().size(scen)
     return len(scen["ops"]) * 4 + len(scen["corpus"]) * 3 + len(scen["regs"]) * 3
 
 
 def shrink_moves(scen):
+    if scen.get("threaded"):
+        yield from _c19().shrink_moves(scen)
+        return
     ops = scen["ops"]
     if len(ops) > 6:
         for lo, hi in ((0, len(ops) // 2), (len(ops) // 2, len(ops))):
@@ -307,6 +440,8 @@ def coverage(agg):
         "rule": "one evaluation = one history (warm-up, then repeats interleaved with disturbances); non-trivial = at "
                 "least one monitored repeat and at least one disturbance; distinct by (world, operation sequence)",
         "monitored_repeats": int(agg.get("repeats_checked", 0)),
+        "threaded_runs": int(agg.get("threaded_runs", 0)),
+        "threaded_monitored_repeats": int(agg.get("threaded_repeats", 0)),
         "distinct_warmed_type_combinations": len(agg.get("combos", set())),
         "disturbances_by_kind": agg.get("disturb", {}),
         "faults_fired": int(agg.get("faults_fired", 0)),
